@@ -23,6 +23,8 @@ type vOrderDB struct {
 	name       string
 	log        *[]string
 	keys, vals [][]byte
+	limit      int // > 0: only this many further writes survive (a crash), then the store loses everything
+	dead       bool
 }
 
 func (d *vOrderDB) Get(k []byte) []byte {
@@ -34,8 +36,14 @@ func (d *vOrderDB) Get(k []byte) []byte {
 	return nil
 }
 func (d *vOrderDB) Set(k, v []byte) {
-	if k == nil {
+	if k == nil || d.dead {
 		return
+	}
+	if d.limit > 0 {
+		d.limit--
+		if d.limit == 0 {
+			d.dead = true // this was the last write that made it to disk
+		}
 	}
 	*d.log = append(*d.log, d.name+":"+string(k))
 	for i := range d.keys {
@@ -79,6 +87,23 @@ func (e vFinExec) EndBlock(*types.Block, events.Fireable, *types.PartSetHeader, 
 	return nil
 }
 
+// under the engine decoding a stored block meta (reflection) is a seam: a meta is there iff its key is
+var vFinStoreDB *vOrderDB
+
+func vFinLoadBlockMeta(bs *bc.BlockStore, height int64) *types.BlockMeta {
+	if vFinStoreDB == nil || vFinStoreDB.Get([]byte(gcmnFmtH(height))) == nil {
+		return nil
+	}
+	return &types.BlockMeta{}
+}
+
+func gcmnFmtH(h int64) string {
+	if h == 1 {
+		return "H:1"
+	}
+	return "H:?"
+}
+
 func vFirst(log []string, what string) int {
 	for i, l := range log {
 		if strings.HasPrefix(l, what) {
@@ -118,7 +143,9 @@ func VerifHarness_C06_finalize_commit_order() {
 		cs.config.Set("chain_id", vChain)
 	}
 	var log []string
-	cs.blockStore = bc.NewBlockStore(&vOrderDB{name: "store", log: &log}, &vOrderDB{name: "arch", log: &log})
+	sdb := &vOrderDB{name: "store", log: &log}
+	vFinStoreDB = sdb
+	cs.blockStore = bc.NewBlockStore(sdb, &vOrderDB{name: "arch", log: &log})
 	st := cs.state
 	sm.VerifSetDB(st, &vOrderDB{name: "state", log: &log})
 	st.SetBlockExecutable(vFinExec{&log})
@@ -144,11 +171,26 @@ func VerifHarness_C06_finalize_commit_order() {
 	}
 	cs.Step, cs.CommitRound = RoundStepCommit, 0
 
+	// an earlier incarnation of the node may have died while saving this very block: only the first
+	// k durable writes of SaveBlock are on disk. The restarted node finalizes the block again and must
+	// end up with the complete block in the store.
+	if k := vNondetLen("writes-of-an-interrupted-save-on-disk", 0, 3); k > 0 {
+		sdb.limit = k
+		cs.blockStore.SaveBlock(b, parts, cs.Votes.Precommits(0).MakeCommit())
+		sdb.limit, sdb.dead = 0, false
+		cs.blockStore = bc.NewBlockStore(sdb, &vOrderDB{name: "arch", log: &log}) // what a restart opens
+		vAssume(cs.blockStore.Height() == 0)
+		log = nil
+		vReach("interrupted-save")
+	}
+
 	cs.finalizeCommit(1) // real; a panic is a finding
 
 	vReach("finalized")
 	vAssert(cs.Height == 2 && cs.Step == RoundStepNewHeight, "F-node-moved-to-next-height")
 	vAssert(cs.blockStore.Height() == 1, "F-block-stored")
+	vAssert(sdb.Get([]byte("H:1")) != nil && sdb.Get([]byte("P:1:0")) != nil && sdb.Get([]byte("SC:1")) != nil && sdb.Get([]byte("C:0")) != nil,
+		"F-stored-block-is-complete")
 	desc, exec := vLast(log, "store:blockStore"), vFirst(log, "event:"+types.EventStringHookExecute())
 	inter, commit, final := vFirst(log, "state:stateIntermediateKey"), vFirst(log, "event:"+types.EventStringHookCommit()), vFirst(log, "state:stateKey")
 	vAssert(desc >= 0 && exec >= 0 && inter >= 0 && commit >= 0 && final >= 0, "F-every-durable-effect-happened")
